@@ -30,7 +30,7 @@ End RMap.
 (* ---------- symtable facts ---------- *)
 Record symbol := mkSym {
   sy_name : ident; sy_assigned : bool; sy_param : bool; sy_global : bool;
-  sy_declglobal : bool; sy_nonlocal : bool; sy_free : bool }.
+  sy_declglobal : bool; sy_nonlocal : bool; sy_free : bool; sy_local : bool }.
 
 Inductive stkind := KModule | KFunction | KClass | KOther.
 
@@ -56,10 +56,10 @@ Definition mem (n : ident) (l : list ident) : bool := existsb (String.eqb n) l.
 (* codecs *)
 Definition symbol_of (x : sexp) : option symbol :=
   match x with
-  | L [n; a; p; g; dg; nl; fr] =>
+  | L [n; a; p; g; dg; nl; fr; lc] =>
       do n' <- ident_of n; do a' <- bool_of a; do p' <- bool_of p; do g' <- bool_of g;
-      do dg' <- bool_of dg; do nl' <- bool_of nl; do fr' <- bool_of fr;
-      Some (mkSym n' a' p' g' dg' nl' fr')
+      do dg' <- bool_of dg; do nl' <- bool_of nl; do fr' <- bool_of fr; do lc' <- bool_of lc;
+      Some (mkSym n' a' p' g' dg' nl' fr' lc')
   | _ => None
   end.
 
@@ -78,6 +78,10 @@ Fixpoint symtab_of (x : sexp) : option symtab :=
 (* ---------- namespaces ---------- *)
 Inductive nkind := NGlobal | NFunction | NClass.
 
+(* what a namespace knows of an enclosing namespace (outer_nsp links): id, kind, symbols, inner_nonlocal_names,
+   outer_nonlocal_map *)
+Definition link := (nat * nkind * list symbol * list ident * list (ident * nat))%type.
+
 (* the static part of a namespace: everything generate_nsp computes *)
 Inductive nsp :=
   Nsp (id : nat) (kind : nkind) (name : ident) (lineno : Z) (syms : list symbol) (params : list ident)
@@ -86,21 +90,23 @@ Inductive nsp :=
       (nonlocal_params : list ident)          (* captured names that are parameters *)
       (is_method zero_super : bool)
       (globals_in_comp : list ident)          (* class only *)
-      (inner : list nsp).
+      (inner : list nsp)
+      (chain : list link).                    (* the enclosing namespaces, innermost first *)
 
-Definition n_id (n : nsp) := match n with Nsp i _ _ _ _ _ _ _ _ _ _ _ _ => i end.
-Definition n_kind (n : nsp) := match n with Nsp _ k _ _ _ _ _ _ _ _ _ _ _ => k end.
-Definition n_name (n : nsp) := match n with Nsp _ _ x _ _ _ _ _ _ _ _ _ _ => x end.
-Definition n_lineno (n : nsp) := match n with Nsp _ _ _ l _ _ _ _ _ _ _ _ _ => l end.
-Definition n_syms (n : nsp) := match n with Nsp _ _ _ _ s _ _ _ _ _ _ _ _ => s end.
-Definition n_params (n : nsp) := match n with Nsp _ _ _ _ _ p _ _ _ _ _ _ _ => p end.
-Definition n_outer_map (n : nsp) := match n with Nsp _ _ _ _ _ _ m _ _ _ _ _ _ => m end.
-Definition n_inner_nonlocal (n : nsp) := match n with Nsp _ _ _ _ _ _ _ x _ _ _ _ _ => x end.
-Definition n_nonlocal_params (n : nsp) := match n with Nsp _ _ _ _ _ _ _ _ x _ _ _ _ => x end.
-Definition n_is_method (n : nsp) := match n with Nsp _ _ _ _ _ _ _ _ _ b _ _ _ => b end.
-Definition n_zero_super (n : nsp) := match n with Nsp _ _ _ _ _ _ _ _ _ _ b _ _ => b end.
-Definition n_globals_in_comp (n : nsp) := match n with Nsp _ _ _ _ _ _ _ _ _ _ _ g _ => g end.
-Definition n_inner (n : nsp) := match n with Nsp _ _ _ _ _ _ _ _ _ _ _ _ i => i end.
+Definition n_id (n : nsp) := match n with Nsp i _ _ _ _ _ _ _ _ _ _ _ _ _ => i end.
+Definition n_kind (n : nsp) := match n with Nsp _ k _ _ _ _ _ _ _ _ _ _ _ _ => k end.
+Definition n_name (n : nsp) := match n with Nsp _ _ x _ _ _ _ _ _ _ _ _ _ _ => x end.
+Definition n_lineno (n : nsp) := match n with Nsp _ _ _ l _ _ _ _ _ _ _ _ _ _ => l end.
+Definition n_syms (n : nsp) := match n with Nsp _ _ _ _ s _ _ _ _ _ _ _ _ _ => s end.
+Definition n_params (n : nsp) := match n with Nsp _ _ _ _ _ p _ _ _ _ _ _ _ _ => p end.
+Definition n_outer_map (n : nsp) := match n with Nsp _ _ _ _ _ _ m _ _ _ _ _ _ _ => m end.
+Definition n_inner_nonlocal (n : nsp) := match n with Nsp _ _ _ _ _ _ _ x _ _ _ _ _ _ => x end.
+Definition n_nonlocal_params (n : nsp) := match n with Nsp _ _ _ _ _ _ _ _ x _ _ _ _ _ => x end.
+Definition n_is_method (n : nsp) := match n with Nsp _ _ _ _ _ _ _ _ _ b _ _ _ _ => b end.
+Definition n_zero_super (n : nsp) := match n with Nsp _ _ _ _ _ _ _ _ _ _ b _ _ _ => b end.
+Definition n_globals_in_comp (n : nsp) := match n with Nsp _ _ _ _ _ _ _ _ _ _ _ g _ _ => g end.
+Definition n_inner (n : nsp) := match n with Nsp _ _ _ _ _ _ _ _ _ _ _ _ i _ => i end.
+Definition n_chain (n : nsp) := match n with Nsp _ _ _ _ _ _ _ _ _ _ _ _ _ c => c end.
 
 (* an ancestor on generate_nsp's stack *)
 Record anc := mkAnc { an_id : nat; an_kind : nkind; an_syms : list symbol }.
@@ -109,7 +115,7 @@ Record anc := mkAnc { an_id : nat; an_kind : nkind; an_syms : list symbol }.
 Definition mark := (nat * ident * bool)%type.
 
 (* search the origin of a nonlocal/free name: innermost function ancestor in which the name is
-   assigned, or a non-global parameter.  [stack] is innermost first. *)
+   local.  [stack] is innermost first. *)
 Fixpoint find_origin (stack : list anc) (n : ident) : res (nat * bool) :=
   match stack with
   | [] => fail ERuntime
@@ -121,7 +127,7 @@ Fixpoint find_origin (stack : list anc) (n : ident) : res (nat * bool) :=
           match lookup_sym (an_syms a) n with
           | None => fail EKey              (* symtable lookup raises KeyError *)
           | Some s =>
-              if sy_assigned s || (sy_param s && negb (sy_global s))
+              if sy_local s                  (* born where it is local (is_local()) *)
               then ret (an_id a, sy_param s)
               else find_origin r n
           end
@@ -201,7 +207,7 @@ Fixpoint build (host_lt_312 : bool) (stack : list anc) (parent_kind : nkind) (pa
             let me := mkAnc next NFunction syms in
             let! cs := children (me :: stack) NFunction (S next) in
             match cs with (inner, marks2, _, next') =>
-              ret (Some (Nsp next NFunction name ln syms params omap [] [] is_method zsuper [] inner),
+              ret (Some (Nsp next NFunction name ln syms params omap [] [] is_method zsuper [] inner []),
                    marks ++ marks2, [], next')
             end
           end
@@ -210,22 +216,23 @@ Fixpoint build (host_lt_312 : bool) (stack : list anc) (parent_kind : nkind) (pa
         let me := mkAnc next NClass syms in
         let! cs := children (me :: stack) NClass (S next) in
         match cs with (inner, marks2, gl, next') =>
-          ret (Some (Nsp next NClass name ln syms [] (fst sc) [] [] false false gl inner),
+          ret (Some (Nsp next NClass name ln syms [] (fst sc) [] [] false false gl inner []),
                snd sc ++ marks2, [], next')
         end
     | _ => ret (None, [], [], next)     (* unknown table kind: warned about and skipped *)
     end
   end.
 
-(* Pass 2: distribute the marks *)
-Fixpoint fill (marks : list mark) (n : nsp) : nsp :=
+(* Pass 2: distribute the marks; record the chain of enclosing namespaces *)
+Fixpoint fill (marks : list mark) (ch : list link) (n : nsp) : nsp :=
   match n with
-  | Nsp i k name ln syms params omap _ _ im zs gl inner =>
+  | Nsp i k name ln syms params omap _ _ im zs gl inner _ =>
       let mine := filter (fun m => Nat.eqb (fst (fst m)) i) marks in
+      let inl := map (fun m => snd (fst m)) mine in
       Nsp i k name ln syms params omap
-          (map (fun m => snd (fst m)) mine)
+          inl
           (map (fun m => snd (fst m)) (filter (fun m => snd m) mine))
-          im zs gl (map (fill marks) inner)
+          im zs gl (map (fill marks ((i, k, syms, inl, omap) :: ch)) inner) ch
   end.
 
 Definition generate_nsp (host_lt_312 : bool) (root : symtab) : res nsp :=
@@ -246,7 +253,7 @@ Definition generate_nsp (host_lt_312 : bool) (root : symtab) : res nsp :=
                end
            end) ch 1 in
       match cs with (inner, marks, _) =>
-        ret (fill marks (Nsp 0 NGlobal name ln syms [] [] [] [] false false [] inner))
+        ret (fill marks [] (Nsp 0 NGlobal name ln syms [] [] [] [] false false [] inner []))
       end
   end.
 
@@ -301,26 +308,113 @@ Definition get_assign (n : nsp) (name : ident) (v : expr) : res expr :=
       end
   end.
 
-(* [comp] = target names of the comprehensions being transformed (comp_stack) *)
-Definition get_load_name (n : nsp) (comp : list ident) (name : ident) : res expr :=
+(* globals()[name] *)
+Definition globals_item (name : ident) : expr := Subscript globals_call (cstr name).
+
+Definition self_link (n : nsp) : link := (n_id n, n_kind n, n_syms n, n_inner_nonlocal n, n_outer_map n).
+Definition lk_id (l : link) : nat := match l with (i, _, _, _, _) => i end.
+Definition lk_kind (l : link) : nkind := match l with (_, k, _, _, _) => k end.
+Definition lk_syms (l : link) : list symbol := match l with (_, _, s, _, _) => s end.
+Definition lk_inner_nonlocal (l : link) : list ident := match l with (_, _, _, x, _) => x end.
+Definition lk_outer_map (l : link) : list (ident * nat) := match l with (_, _, _, _, m) => m end.
+
+(* get_load_global: a plain name unless a local of an enclosing function (or of the function itself) hides it *)
+Fixpoint hidden_by_local (links : list link) (name : ident) : bool :=
+  match links with
+  | [] => false
+  | l :: r =>
+      match lk_kind l with
+      | NGlobal => false
+      | NFunction =>
+          match lookup_sym (lk_syms l) name with
+          | Some s => if sy_local s then true else hidden_by_local r name
+          | None => hidden_by_local r name
+          end
+      | NClass => hidden_by_local r name
+      end
+  end.
+Definition get_load_global (n : nsp) (name : ident) : expr :=
+  if hidden_by_local (self_link n :: n_chain n) name then globals_item name else Name name.
+
+(* NamespaceClass._load_from_enclosing: the lookup of a function nested in the class *)
+Fixpoint load_from_enclosing (n : nsp) (links : list link) (name : ident) : expr :=
+  match links with
+  | [] => get_load_global n name
+  | l :: r =>
+      match lk_kind l with
+      | NGlobal => get_load_global n name
+      | NClass => load_from_enclosing n r name
+      | NFunction =>
+          match lookup_sym (lk_syms l) name with
+          | None => load_from_enclosing n r name
+          | Some s =>
+              if sy_local s then
+                if mem name (lk_inner_nonlocal l) then Subscript (nonlocal_dict (lk_id l)) (cstr name) else Name name
+              else match assoc_nat name (lk_outer_map l) with
+                   | Some o => Subscript (nonlocal_dict o) (cstr name)
+                   | None => get_load_global n name
+                   end
+          end
+      end
+  end.
+
+(* [bound]: the names bound by the lambdas / comprehensions whose body is being transformed (scope_stack, active
+   entries); [inner]: whether there is one *)
+Definition get_load_name (n : nsp) (bound : list ident) (inner : bool) (name : ident) : res expr :=
   match n_kind n with
   | NGlobal => ret (Name name)
   | NFunction =>
-      if mem name comp then ret (Name name)
+      if mem name bound then ret (Name name)
       else if mem name (n_inner_nonlocal n) then ret (Subscript (nonlocal_dict (n_id n)) (cstr name))
       else match assoc_nat name (n_outer_map n) with
            | Some o => ret (Subscript (nonlocal_dict o) (cstr name))
-           | None => ret (Name name)
+           | None =>
+               match lookup_sym (n_syms n) name with
+               | Some s => if sy_local s then ret (Name name) else ret (get_load_global n name)
+               | None => ret (get_load_global n name)
+               end
            end
   | NClass =>
-      if mem name comp then ret (Name name)
-      else if mem name (n_globals_in_comp n) then ret (Name name)
+      if mem name bound then ret (Name name)
+      else if inner then ret (load_from_enclosing n (n_chain n) name)
       else match lookup_sym (n_syms n) name with
-           | None => fail EKey
+           | None => ret (get_load_global n name)
            | Some s =>
                match assoc_nat name (n_outer_map n) with
                | Some o => ret (Subscript (nonlocal_dict o) (cstr name))
-               | None => if sy_global s then ret (Name name) else ret (Subscript (class_dict (n_id n)) (cstr name))
+               | None =>
+                   if sy_global s then ret (get_load_global n name)
+                   else ret (IfExp (Compare (cstr name) [In] [class_dict (n_id n)])
+                                   (Subscript (class_dict (n_id n)) (cstr name))
+                                   (get_load_global n name))
                end
            end
+  end.
+
+(* get_load_assigned: where get_assign has just stored the name *)
+Definition get_load_assigned (n : nsp) (name : ident) : res expr :=
+  match n_kind n with
+  | NGlobal => ret (Name name)
+  | NFunction =>
+      match lookup_sym (n_syms n) name with
+      | None => fail EKey
+      | Some s =>
+          if sy_declglobal s then ret (globals_item name)
+          else match assoc_nat name (n_outer_map n) with
+               | Some o => ret (Subscript (nonlocal_dict o) (cstr name))
+               | None =>
+                   if mem name (n_inner_nonlocal n) then ret (Subscript (nonlocal_dict (n_id n)) (cstr name))
+                   else ret (Name name)
+               end
+      end
+  | NClass =>
+      match lookup_sym (n_syms n) name with
+      | None => fail EKey
+      | Some s =>
+          if sy_declglobal s then ret (globals_item name)
+          else match assoc_nat name (n_outer_map n) with
+               | Some o => ret (Subscript (nonlocal_dict o) (cstr name))
+               | None => ret (Subscript (class_dict (n_id n)) (cstr name))
+               end
+      end
   end.
